@@ -20,10 +20,18 @@ ASSUMPTIONS = [
     "wasm is decoded as its only caller does (address=0, code=bytes); the suffix reader sees the same replacement suffix",
 ]
 N = {"quick": 1200, "thorough": 40000}
+SWEEP = {"quick": 12, "thorough": 120}  # budget per mode = max(N, SWEEP * number of shipped specs): expected visits per spec
+
+
+BIG = {"amoco.arch.x64.cpu_x64": 6, "amoco.arch.x86.cpu_x86": 6, "amoco.arch.arm.cpu_armv7": 2, "amoco.arch.tricore.cpu": 3}
 
 
 def shards(tier, seed):
-    return [{"isa": n} for n in visa.all_names()]
+    out = []
+    for n in visa.all_names():
+        k = BIG.get(n, 1)
+        out += [{"isa": n, "sub": j, "nsub": k} for j in range(k)]
+    return out
 
 
 def D(I, b):
@@ -36,8 +44,13 @@ def D(I, b):
         return ("EXC", type(x).__name__)
 
 
-def check(I, b, mode, e, suffixes):
-    """returns (status, bucket, detail, info) ; status in ok/none/fail/timeout"""
+def check(I, b, mode, e, suffixes, history=()):
+    """returns (status, bucket, detail, info) ; status in ok/none/fail/timeout.
+    The decoder's pending-prefix state is NOT reset between decodes (only after an
+    exception): a decode that leaves state behind must show up as a difference.
+    `history`: earlier cases (bytes, suffixes) run first on the same disassembler."""
+    for hb, hs in history:
+        check(I, hb, mode, e, hs)
     I.set_mode(mode, e)
     try:
         r = D(I, b)
@@ -96,7 +109,6 @@ def check(I, b, mode, e, suffixes):
         return ("ok", None, None, info)
     finally:
         I.reset_mode()
-        I.reset_decoder()
 
 
 def gen_suffixes(rnd):
@@ -116,14 +128,20 @@ def run_shard(shard, tier, seed):
     part = Partial()
     I = visa.load(shard["isa"])
     modes = I.modes()
-    n = N[tier] // len(modes) + 1
     varlen = {id(s) for S in I.specs for s in S if s.size == 0}
     for (mode, e) in modes:
-        def body(rnd, mode=mode, e=e):
+        nspec = len(I.specs[mode])
+        n = max(N[tier] // len(modes), SWEEP[tier] * nspec) // shard.get("nsub", 1) + 1
+        hist = []
+
+        def body(rnd, mode=mode, e=e, hist=hist):
             b = I.gen_bytes(rnd, mode, e)
             suf = gen_suffixes(rnd)
             st_, bucket, detail, info = check(I, b, mode, e, suf)
-            case = dict(isa=I.name, mode=mode, endian=e, bytes=b.hex(), suffixes=[t.hex() for t in suf])
+            case = dict(isa=I.name, mode=mode, endian=e, bytes=b.hex(), suffixes=[t.hex() for t in suf],
+                        history=[[h.hex(), [t.hex() for t in hs]] for h, hs in hist[-2:]])
+            hist.append((b, suf))
+            del hist[:-2]
             part.count(st_)
             if st_ in ("timeout",):
                 return
@@ -136,13 +154,14 @@ def run_shard(shard, tier, seed):
             if st_ == "fail":
                 part.fail(bucket, case, detail)
 
-        campaign(st.randoms(use_true_random=False), body, n, shard_seed(seed, I.name, mode, e))
+        campaign(st.randoms(use_true_random=False), body, n, shard_seed(seed, I.name, mode, e, shard.get("sub", 0)))
     return part
 
 
 def replay(case):
     I = visa.load(case["isa"])
-    st_, bucket, detail, info = check(I, bytes.fromhex(case["bytes"]), case["mode"], case["endian"], [bytes.fromhex(t) for t in case["suffixes"]])
+    hist = [(bytes.fromhex(h), [bytes.fromhex(t) for t in hs]) for h, hs in case.get("history", [])]
+    st_, bucket, detail, info = check(I, bytes.fromhex(case["bytes"]), case["mode"], case["endian"], [bytes.fromhex(t) for t in case["suffixes"]], hist)
     if st_ == "fail":
         return (bucket, detail)
     return None
@@ -154,11 +173,19 @@ def shrink(case, bucket):
     I = visa.load(case["isa"])
     suf = [bytes.fromhex(t) for t in case["suffixes"]]
 
-    def fails(b, s=None):
-        r = check(I, b, case["mode"], case["endian"], s or suf)
+    hist = [(bytes.fromhex(h), [bytes.fromhex(t) for t in hs]) for h, hs in case.get("history", [])]
+
+    def fails(b, s=None, h=None):
+        I.reset_decoder()
+        r = check(I, b, case["mode"], case["endian"], s or suf, hist if h is None else h)
         return r[0] == "fail" and r[1] == bucket
 
-    b = ddmin_bytes(bytes.fromhex(case["bytes"]), fails, 150)
+    b0 = bytes.fromhex(case["bytes"])
+    if fails(b0, None, []):
+        hist = []
+    if not fails(b0):
+        return case
+    b = ddmin_bytes(b0, fails, 150)
     for t in suf:
         if fails(b, [t]):
             suf = [t]
@@ -166,4 +193,5 @@ def shrink(case, bucket):
     c = dict(case)
     c["bytes"] = b.hex()
     c["suffixes"] = [t.hex() for t in suf]
+    c["history"] = [[h.hex(), [t.hex() for t in hs]] for h, hs in hist]
     return c
